@@ -1978,9 +1978,12 @@ def key_split(s):
     """
     # If we convert the key, recurse to utilize LRU cache better
     if type(s) is bytes:
-        return key_split(s.decode())
+        try:
+            return key_split(s.decode())
+        except UnicodeDecodeError:
+            return "Other"
     if type(s) is tuple:
-        return key_split(s[0])
+        return key_split(s[0]) if s else "Other"
     try:
         words = s.split("-")
         if not words[0][0].isalpha():
